@@ -168,6 +168,18 @@ func discharge(reps []*funcReport, workDir string, timeout time.Duration, need i
 			res := raceSolvers(file, tmo, nd)
 			j.o.All = res
 			r := res[0]
+			if j.o.Cover && r.Status == "unsat" && j.o.PreNFacts > 0 {
+				// is the program point reachable at all without the assumptions under test?
+				nf := j.o.NFacts
+				j.o.NFacts = j.o.PreNFacts
+				q0 := j.rep.Session.query(j.o, j.rep.Session.P.anyWFDef()+litDefs()+j.rep.SpecDefs)
+				j.o.NFacts = nf
+				f0 := writeQuery(workDir, j.o.Name+".reach", q0)
+				r0 := raceSolvers(f0, tmo, 1)[0]
+				if r0.Status == "unsat" {
+					r = SolverResult{Status: "unknown", Solver: r0.Solver, Secs: r.Secs + r0.Secs, Output: "program point unreachable in this case: cover is vacuous"}
+				}
+			}
 			j.o.Result = &r
 			if r.Status != "unsat" && !j.o.Cover {
 				// model search: the same query without quantified assertions (more models; candidates are validated by replay)
